@@ -14,9 +14,12 @@ import (
 	"encoding/json"
 	"fmt"
 	"os"
+	"os/exec"
 	"path/filepath"
+	"runtime/debug"
 	"strings"
 	"sync"
+	"syscall"
 	"time"
 
 	"github.com/magisterquis/curlrevshell/lib/opshell"
@@ -154,6 +157,9 @@ func c09Judge(r *ev.Result, c c09Case, res *hworld.Response, notices []opshell.C
 	if 200 == res.Status && bytes.Contains(body, []byte("<pre>")) && bytes.Contains(body, []byte("OUTSIDE-")) {
 		v("outside-listing", "the response lists a directory outside the tree")
 	}
+	if 431 == res.Status && len(c.Target) < 100_000 {
+		v("refused-for-size", fmt.Sprintf("a request of %d bytes was answered 431 and never reached the program (net/http's own limit is 1 MiB): non-shell paths of that length get neither the file nor a 404, and are not reported", len(c.Target)))
+	}
 	is2xx := res.Status >= 200 && res.Status < 300
 	hasFile := bytes.Contains(body, []byte("IN:"))
 	if shell && hasFile {
@@ -272,6 +278,12 @@ func c09(r *ev.Result, tier string) {
 		if 0 == j.lo && strings.HasPrefix(j.cfg, "dir:") {
 			ts = append(append([]string{}, ts...), c09SiblingTargets(strings.TrimPrefix(j.cfg, "dir:"))...)
 		}
+		if 0 == j.lo {
+			/* Long targets (far below net/http's own 1 MiB limit): a long
+			path, and a short path with a long query. */
+			long := strings.Repeat("long-segment-", 1000)
+			ts = append(append([]string{}, ts...), "/"+long, "/a?q="+long, "/sub/"+long+"/../../a")
+		}
 		for _, t := range ts {
 			method := "GET"
 			if m, rest, ok := strings.Cut(t, " "); ok && !strings.HasPrefix(t, "/") {
@@ -334,6 +346,7 @@ func c09(r *ev.Result, tier string) {
 	/* Single-file mode under concurrent requests, and after the file was
 	replaced. */
 	c09SingleFileConcurrent(r, root)
+	c09Descriptors(r, root)
 	r.Set("responses_by_config_and_status", statuses)
 	r.Set("targets", len(targets))
 	r.Sample(5, c09Case{Config: "dir:nested", Target: "//sub/%2e%2e/..%2f/OUTSIDE-canary.txt"})
@@ -507,4 +520,83 @@ func c09Replay(kind string, raw json.RawMessage) int {
 	}
 	fmt.Println("not reproduced")
 	return 0
+}
+
+// c09Descriptors: single-file mode keeps returning the file however many
+// requests come between two runs of the garbage collector.  Run in a worker
+// process whose descriptor limit is a few dozen above what it has open, with
+// the collector (and so every finalizer that might close a forgotten file)
+// switched off: 300 requests, each must get the file.
+func c09Descriptors(r *ev.Result, root string) {
+	out, err := exec.Command(os.Args[0], "worker", "c09fd", filepath.Join(root, "flat", "a")).Output()
+	var res struct {
+		Requests int    `json:"requests"`
+		FailedAt int    `json:"failed_at"`
+		Status   int    `json:"status"`
+		Body     string `json:"body"`
+		Err      string `json:"err"`
+	}
+	if jerr := json.Unmarshal(out, &res); nil != jerr || nil != err {
+		ev.Broken("c09fd worker: %v %v %q", err, jerr, trunc80(string(out)))
+	}
+	if "" != res.Err {
+		ev.Broken("c09fd worker: %s", res.Err)
+	}
+	if res.FailedAt > 0 {
+		r.Violate(ev.Violation{Signature: "single-file/descriptors-run-out", Kind: "c09", Replay: c09Case{Config: "file", Target: fmt.Sprintf("/anything (request number %d in a process with ~40 spare descriptors, collector off)", res.FailedAt)},
+			What: fmt.Sprintf("single-file mode, one process, no garbage collection in between: request number %d did not get the file (status %d, body %q); every request leaves a descriptor open", res.FailedAt, res.Status, trunc80(res.Body))})
+	}
+	r.Add(res.Requests)
+	r.Set("single_file_requests_without_gc", res.Requests)
+}
+
+func init() {
+	workers["c09fd"] = func(args []string) int {
+		type result struct {
+			Requests int    `json:"requests"`
+			FailedAt int    `json:"failed_at"`
+			Status   int    `json:"status"`
+			Body     string `json:"body"`
+			Err      string `json:"err"`
+		}
+		var res result
+		emit := func() int { json.NewEncoder(os.Stdout).Encode(res); return 0 }
+		w, err := hworld.Start(hworld.Config{FDir: args[0]})
+		if nil != err {
+			res.Err = err.Error()
+			return emit()
+		}
+		c, err := w.Dial("")
+		if nil != err {
+			res.Err = err.Error()
+			return emit()
+		}
+		/* One request to have everything lazily opened. */
+		c.Do("GET /warm-up HTTP/1.1\r\nHost: x\r\n\r\n")
+		w.Drain()
+		ents, _ := os.ReadDir("/proc/self/fd")
+		lim := syscall.Rlimit{}
+		syscall.Getrlimit(syscall.RLIMIT_NOFILE, &lim)
+		lim.Cur = uint64(len(ents) + 40)
+		if err := syscall.Setrlimit(syscall.RLIMIT_NOFILE, &lim); nil != err {
+			res.Err = "setrlimit: " + err.Error()
+			return emit()
+		}
+		debug.SetGCPercent(-1)
+		for i := 1; i <= 300; i++ {
+			rs, err := c.Do(fmt.Sprintf("GET /some/path/%d HTTP/1.1\r\nHost: x\r\n\r\n", i))
+			w.Drain()
+			res.Requests = i
+			if nil != err || 200 != rs.Status || "IN:flat:a\n" != string(rs.Body) {
+				res.FailedAt = i
+				if nil != rs {
+					res.Status, res.Body = rs.Status, string(rs.Body)
+				} else {
+					res.Body = fmt.Sprint(err)
+				}
+				break
+			}
+		}
+		return emit()
+	}
 }
